@@ -25,8 +25,8 @@ import (
 
 func init() {
 	register(&Property{
-		ID:    "C18",
-		Level: "other",
+		ID:      "C18",
+		Level:   "other",
 		Explain: "Decides structural necessary conditions of the cursor contract, for both reader implementations: (C) every memoised field (peeked line, line offset — found by the shape of their memoisation, not by name) is reset on every path of every method that changes a field the memoised value is computed from, so no call sequence can observe a stale view after SetPosition/SetPadding/Advance/AdvanceLine/ResetPosition; (R) the closure-search helper returns with the position it saved at entry restored on every path on which the Advance option is false, and the regexp helpers restore the position before returning 'no match' and consume from the restored position otherwise; (H) SetPosition, which may move the cursor to another line, updates every cursor field that AdvanceLine updates (the line-start field LineOffset counts from in particular); (G) Peek and PeekLine of one type decide end-of-input by the same comparisons; (S) SetPosition stores its arguments into exactly the fields Position returns; (V) Value(seg) is seg.Value(source); (U) no countdown loop uses its index after it may have reached -1. Not decided: the arithmetic of Advance across lines and padding, LineOffset's tab expansion, blockReader.Value over non-contiguous segments, absence of out-of-range positions in general.",
 		Trusted: []string{"regexp.FindReaderSubmatchIndex consumes runes only through ReadRune", "go/ssa CFG"},
 		Assumes: []string{"third-party Reader implementations out of scope", "preconditions of the statement (Advance(n) with n no larger than what remains)"},
